@@ -313,6 +313,13 @@ def _extent(rng, kind, small=True):
         e["cgap"] = rng.choice([0, 0, 1])
     if kind == "sesparse":
         e["cluster_base"] = rng.choice([0, 0, 0x1001, 0x100000FFF]) if rng.random() < 0.5 else 0
+        if rng.random() < 0.4:
+            # more grains than one 64-entry grain table holds: several grain tables (directory indices > 0)
+            gsz = rng.choice([1, 2])
+            ngr = rng.randint(65, 200)
+            order = list(range(ngr))
+            rng.shuffle(order)
+            e.update({"gsz": gsz, "capacity": ngr * gsz, "grains": [order[g] if rng.random() < 0.3 else (None if rng.random() < 0.8 else "z") for g in range(ngr)]})
     return e
 
 
